@@ -254,6 +254,25 @@ CLAIMED = {
         'are counted separately, not alarmed on.',
         'DESIGN.md section 4, C05',
     ),
+    'C06': (
+        'Coq proofs over an executable model of inverse() on the shared operator core, over any field with decidable '
+        'equality: closed forms (scalar, diagonal, QU rotation, move-axis, block-diagonal over any container nesting) are '
+        'two-sided inverses; Moore-Penrose equations for every diagonal (zeros allowed, no division by zero evaluated); the '
+        'general two-sided-inverse statement by induction over all expression trees under explicit invertibility guards '
+        'and the lazy-inverse-as-exact-solver hypothesis; X.I.I; refusal of non-square operators; as_matrix of a lazy '
+        'inverse tied to a certified Gauss-Jordan inverse; CG convergence tested numerically only',
+        'homothety_inv, diag_inv, diag_pinv_moore_penrose, diag_pinv_projection, orthogonal_inv_rotation/moveaxis, '
+        'inverse_two_sided, blockdiag_inv, blockdiag_inverse_blockwise, inverse_of_lazy_inverse, inv_inv, '
+        'inverse_refuses_nonsquare, inverse_cases, lazy_inverse_matrix: 31 obligations closed under the global context. '
+        'Tie: C-tie on the whole alphabet + closed-form parameter scopes (all zero masks n<=4, move-axis tuples, rotation '
+        'residues, nested block containers): skeleton/identities of op.I and op.I.I, structures, dense matrices, refusal kind; '
+        'T-tie Props/Tables.v (method resolution of inverse).',
+        'Partial: "A.I(y) solves A z = y to the solver tolerance" is a floating-point convergence statement about lineax CG: '
+        'tested on 132 (quick) SPD systems with three solver settings, not proved. inv_inv carries the decidable premise '
+        'square_blocks (needs reduce_structs to remove). Algebra.inverse of the shared core is not recursive on nested '
+        'block-diagonals; C06 uses inverse_r with an agreement lemma.',
+        'DESIGN.md section 4, C06',
+    ),
 }
 
 PENDING_REASON = 'check not built yet in this session (work in progress; see DESIGN.md section 8 for the order of work)'
